@@ -147,6 +147,40 @@ def gen_survivor_query(rng, conds):
     return (rng.choice(others)[0], ante)
 
 
+def gen_exception_chain_base(rng):
+    """Classes with exceptions to exceptions (birds fly, penguins are birds and do not fly, super
+    penguins are penguins and fly, ...): a tolerance partition with 3-4 layers."""
+    k = rng.choice([3, 3, 4])
+    sig = ATOMS[: k + 2]  # the last atom is not mentioned by any conditional
+    x = ("var", sig[0])
+    cls = [("var", a) for a in sig[1 : k + 1]]
+    conds = [(x, cls[0])]
+    for i in range(1, k):
+        prop = x if i % 2 == 0 else ("not", x)
+        conds.append((prop, cls[i]))
+        conds.append((cls[i - 1], cls[i]))
+    return sig, conds
+
+
+def gen_chain_query(rng, sig, conds):
+    """Queries about a class combined with an (un)expected property, e.g. (!p | s,!f)."""
+    x = ("var", sig[0])
+    cls = [("var", a) for a in sig[1:-1]]
+    free = ("var", sig[-1])
+    c = rng.choice(cls)
+    lit = rng.choice([x, ("not", x)])
+    r = rng.random()
+    if r < 0.25:
+        # about an atom the base says nothing about: undecided on every layer, the recursion goes deep
+        return (rng.choice([free, ("not", free)]), rng.choice([c, ("and", c, lit)]))
+    if r < 0.5:
+        other = rng.choice(cls)
+        return (rng.choice([other, ("not", other)]), ("and", c, lit))
+    if r < 0.7:
+        return (lit, ("and", c, rng.choice([("not", rng.choice(cls)), rng.choice(cls)])))
+    return (lit, c)
+
+
 def gen_query(rng, atoms, conds=None, bias=None):
     r = rng.random()
     if bias == "conflict" and conds:
